@@ -850,3 +850,171 @@ def run(ctx) -> None:  # noqa: F811
     ctx.require(n >= 1, f"R-BLOCKFLAGS found no sub-distribution constructor in DistributionFromValues")
     _inner_run_c36b(ctx)
 
+
+
+# =============================================================================================
+# ---- added after the mutation sweep (round 4): axis layout of the multidimensional values / weights and the
+# ---- delegation of MultidimensionalDistribution.divide
+_inner_run_c36c = run
+
+
+class _MultiHooks:
+    """Leaves of the layout interpretation (sa/rules/axislayout.py) of a k-component MultidimensionalDistribution."""
+
+    def __init__(self, multi: ClassInfo, k: int):
+        from ..rules import axislayout as L
+
+        self.L, self.multi, self.k = L, multi, k
+
+    def name(self, ident, interp):
+        return None if ident == "cp" else NotImplemented
+
+    def attr(self, base, attr, interp):
+        L = self.L
+        if isinstance(base, L.Obj) and base.tag == "self":
+            if attr in ("_distributions", "distributions"):
+                return [L.Obj(("component", i)) for i in range(self.k)]
+            g = self.multi.find_method(attr, "getter")
+            if g is not None and g.is_property:
+                r = interp.run(g.body, {g.positional_params[0]: base})
+                if r is not None and r[0] == "return":
+                    return r[1]
+            return NotImplemented
+        if isinstance(base, L.Obj) and isinstance(base.tag, tuple) and base.tag[0] == "component":
+            i = base.tag[1]
+            if attr == "values":
+                return L.LA((f"g{i}",), Poly.atom(f"v{i}"))
+            if attr == "weights":
+                return L.LA((f"g{i}",), Poly.atom(f"w{i}"))
+            if attr == "dimensions":
+                return 1
+        return NotImplemented
+
+    def call(self, fname, args, kwargs, node, interp):
+        L = self.L
+        short = fname.split(".")[-1]
+        if short == "get_array_module":
+            return L.MOD
+        if short == "divide" and args and isinstance(args[0], L.Obj) and isinstance(args[0].tag, tuple):
+            return ("divided", args[0].tag[1], tuple(args[1:]), tuple(sorted(kwargs.items(), key=lambda kv: kv[0])))
+        return NotImplemented
+
+
+def _multi_layout(ctx, repo, multi: ClassInfo, ks=(1, 2, 3)) -> None:
+    from ..rules import axislayout as L
+    from ..rules.absint import DomainError
+
+    sizes = {"g0": 3, "g1": 5, "g2": 7}
+    A = Poly.atom
+    for attr, rule in (("values", "R-VALUELAYOUT"), ("weights", "R-WEIGHTLAYOUT")):
+        g = multi.own_method(attr, "getter")
+        ctx.require(g is not None and g.is_property, f"{multi.qualname}.{attr} is not a property")
+        for k in ks:
+            grid = tuple(f"g{i}" for i in range(k))
+            if attr == "values":
+                want = L.LA(grid, A("v0")) if k == 1 else L.LA(grid + (L.COMP,), tuple(A(f"v{i}") for i in range(k)))
+                txt = "the component's values" if k == 1 else \
+                    f"values[i0..i{k - 1}] == ({', '.join(f'v{i}[i{i}]' for i in range(k))}): one grid axis per component " \
+                    "in component order, the tuple on the last axis"
+            else:
+                p = Poly.const(1)
+                for i in range(k):
+                    p = p * A(f"w{i}")
+                want = L.LA(grid, p)
+                txt = "the component's weights" if k == 1 else \
+                    f"weights[i0..i{k - 1}] == {'·'.join(f'w{i}[i{i}]' for i in range(k))}: one axis per component in " \
+                    "component order, the shape of values[..., 0]"
+            cname = f"{g.qualname}:layout:{k} component{'s' if k > 1 else ''}"
+            it = L.LayoutInterp(_MultiHooks(multi, k), sizes)
+            try:
+                r = it.run(g.body, {g.positional_params[0]: L.Obj("self")})
+            except DomainError as e:
+                ctx.violation(rule, cname, g.loc(e.node) if e.node is not None else g.where,
+                              f"assembling the {attr} of a {k}-component distribution fails: {e}", key_detail=f"k{k}")
+                continue
+            got = r[1] if r is not None and r[0] == "return" else None
+            if not isinstance(got, L.LA):
+                raise AnalysisError(f"{g.qualname}: the layout interpreter did not reach an array result for {k} "
+                                    "components")
+            ctx.check(it.same(got, want), rule, cname, g.where, txt,
+                      f"with {k} component{'s' if k > 1 else ''} .{attr} has {L.describe(got)}; expected "
+                      f"{L.describe(want)} ({txt}; g_i = axis of component i, C = component axis, flat(...) = axes "
+                      "merged into one by a flattening call such as np.outer)", key_detail=f"k{k}")
+
+
+def _multi_divide(ctx, repo, multi: ClassInfo) -> None:
+    from ..rules import axislayout as L
+    from ..rules.absint import DomainError
+
+    f = multi.own_method("divide")
+    ctx.require(f is not None, f"{multi.qualname}.divide not found")
+    target = repo.method(MOD, DFV, "divide")
+    params = f.positional_params[1:]
+    tparams = target.positional_params[1:]
+    ctx.require(params == tparams, f"{f.qualname} and {target.qualname} no longer take the same parameters")
+    for k in (1, 2):
+        it = L.LayoutInterp(_MultiHooks(multi, k), {"g0": 3, "g1": 5, "g2": 7})
+        env = {f.positional_params[0]: L.Obj("self")}
+        for p in params:
+            env[p] = L.Sc(Poly.atom(f"‹{p}›"))
+        cname = f"{f.qualname}:{k} component{'s' if k > 1 else ''}"
+        try:
+            r = it.run(f.body, env)
+            got = r[1] if r is not None and r[0] == "return" else None
+        except L.Raises as e:
+            got = ("raises", e.name)
+        except DomainError as e:
+            got = ("fails", str(e))
+        if k == 1:
+            ok = isinstance(got, tuple) and got and got[0] == "divided"
+            if ok:
+                _, comp, pos, kws = got
+                bound = dict(zip(tparams, pos))
+                bound.update(dict(kws))
+                wrong = [p for p in tparams if p in bound and bound[p] != env[p]]
+                missing = [p for p in tparams if p not in bound]
+                ctx.check(not wrong and not missing and comp == 0, "R-DELEGATE", cname, f.where,
+                          "a one-component distribution is divided by its component with the caller's chunks and lazy",
+                          "the single component's divide() receives "
+                          + "; ".join(f"`{p}` = the caller's {L.describe(bound[p])}" for p in wrong)
+                          + ("; " if wrong and missing else "") + "; ".join(f"no `{p}` (default used)" for p in missing),
+                          key_detail="args")
+            else:
+                ctx.violation("R-DELEGATE", cname, f.where,
+                              f"dividing a one-component distribution does not return its component's blocks ({got})",
+                              key_detail="one")
+        else:
+            bad = isinstance(got, tuple) and got and got[0] == "divided"
+            ctx.check(not bad, "R-DELEGATE", cname, f.where,
+                      f"a two-component distribution is not divided through a single component ({got})",
+                      f"a two-component distribution is divided by dividing component {got[1] if bad else '?'} only: the "
+                      "blocks carry one component's values and weights, not the distribution's", key_detail="two")
+
+
+def run(ctx) -> None:  # noqa: F811
+    ctx.rule("R-VALUELAYOUT", "MultidimensionalDistribution.values lays the component values out as "
+             "values[i_0, .., i_{k-1}] == (v_0[i_0], .., v_{k-1}[i_{k-1}]): one grid axis per component in component "
+             "order and the tuple on the last axis (with one component: that component's values unchanged); decided by "
+             "executing the assembly code (meshgrid / stack / transposes, the one-component guard) over labelled axes "
+             "(sa/rules/axislayout.py) for 1, 2 and 3 components")
+    ctx.rule("R-WEIGHTLAYOUT", "MultidimensionalDistribution.weights is the tensor product of the component weights on "
+             "the same grid axes as the values: weights[i_0, .., i_{k-1}] == Π w_j[i_j], axes in component order — "
+             "otherwise weight (i, j) does not belong to value (i, j); executed over labelled axes for 1, 2 and 3 "
+             "components (np.outer flattens its operands: the merged axis is visible as flat(...))")
+    ctx.rule("R-DELEGATE", "MultidimensionalDistribution.divide hands the work to its only component exactly when there "
+             "is one, with the caller's chunks and lazy passed to the parameters of the same name; with two components "
+             "it does not return the blocks of a single component")
+    repo = ctx.repo
+    multi = repo.cls(MOD, MULTI)
+    pending: list[AnalysisError] = []
+    for step in (lambda: _multi_layout(ctx, repo, multi, (1, 2)), lambda: _multi_divide(ctx, repo, multi)):
+        try:
+            step()
+        except AnalysisError as e:
+            pending.append(e)
+    _inner_run_c36c(ctx)
+    if pending:
+        raise pending[0]
+    # three components last: the weights instance is an open defect of the tree (np.outer flattens the product of the
+    # first two components); recorded after the other rules so that it cannot mask an analysis error of theirs
+    _multi_layout(ctx, repo, multi, (3,))
